@@ -371,6 +371,17 @@ class DimEval:
             if isinstance(s, (ast.FunctionDef, ast.AsyncFunctionDef)):
                 return self.nested_fn(s)
             return None
+        if isinstance(val, ast.List) and not val.elts:
+            # a list filled by name.append(v): unit of the appended values
+            r = BOTTOM
+            for c in self.fv.calls():
+                if isinstance(c.func, ast.Attribute) and c.func.attr == "append" and U(c.func.value) == name and len(c.args) == 1:
+                    r = join(r, self.as_unit(self.unit(c.args[0], c)))
+                    if r is None:
+                        return None
+            if isinstance(r, Unit):
+                return r.with_ext(True)
+            return None if r is BOTTOM else r
         return self.unit(val, d)
 
     def enclosing_loop(self, stmt):
